@@ -5,7 +5,7 @@
     theorem shows that the pre-fix order of updates ([stale = true]) violates the property. *)
 From Coq Require Import List Arith Bool ZArith QArith Qreduction Lia.
 From PV Require Import Base.ListUtil Base.QUtil Base.FirstArgmax Base.MixedRadix Model.Store Model.Archive
-     Proofs.ArchiveProofs Proofs.C01Proofs Proofs.C07Proofs Model.Sliding Proofs.SlidingProofs
+     Proofs.ArchiveProofs Proofs.C01Proofs Proofs.C02Proofs Proofs.C07Proofs Model.Sliding Proofs.SlidingProofs
      Model.SlidingIndex Proofs.SlidingBridge.
 Import ListNotations.
 Local Open Scope nat_scope.
@@ -125,6 +125,17 @@ Theorem C15_history_contents : forall (P : Type) (c : scfg) (h : list (sop P)),
                c_cell x = sindex (s_eps c) (s_dims c) (ss_geom (srun false c h)) (fst (c_pay x))).
 Proof. exact history_contents. Qed.
 
+(** C02 on a remapping insertion: the feedback (status, value) of the newest solution is [judge] against the REBUILT archive --
+    previous elites, then the buffer without the newest solution, re-inserted under the new boundaries and bounds -- i.e. against
+    the archive as it is just before the newest solution is inserted. *)
+Theorem C15_remap_feedback : forall (P : Type) (c : scfg) (st : sstate P) lst r,
+  cwf c -> SInv c st -> rev (ss_buf st) = lst :: r ->
+  let g' := new_geom c (sorted_measures c (ss_buf st)) in
+  let x := cand_of_entry c g' lst in
+  snd (remap false c st) =
+  (Proofs.C02Proofs.judge_status (acfg c) (rebuilt c st) x, Proofs.C02Proofs.judge_value (acfg c) (rebuilt c st) x).
+Proof. exact remap_feedback. Qed.
+
 (** the index map of this model IS the one C03 verifies (Model/SlidingIndex.v): per dimension and flattened *)
 Theorem C15_index_is_C03_index_1 : forall eps d b lo hi m, sidx1 eps d b lo hi m = sb_idx1 d b lo hi eps m.
 Proof. exact sidx1_eq. Qed.
@@ -187,5 +198,6 @@ Print Assumptions C15_invariant.
 Print Assumptions C15_index_in_range.
 Print Assumptions C15_stale_refuted.
 Print Assumptions C15_history_contents.
+Print Assumptions C15_remap_feedback.
 Print Assumptions C15_index_is_C03_index_1.
 Print Assumptions C15_index_is_C03_index.
